@@ -5,6 +5,7 @@
 import GoldilocksVerif.Gen.PosScalar
 import GoldilocksVerif.Lemmas.PosSpecL
 set_option linter.unusedSimpArgs false
+set_option linter.unnecessarySeqFocus false
 set_option maxRecDepth 8192
 namespace GoldilocksVerif
 open PoseidonSpec Gen.PosScalar Gen.PosConsts
@@ -27,7 +28,7 @@ theorem sadd_frame (x c : Region) (i : Nat) (h : 12 ≤ i) : (Pos_add_ x c) i = 
 
 theorem spow7_den (x : Region) : ∀ i, i < 12 → den ((Pos_pow7_ x) i) = den (x i) ^ 7 := by
   refine forall_lt_12 _ ?_ ?_ ?_ ?_ ?_ ?_ ?_ ?_ ?_ ?_ ?_ ?_ <;>
-    (simp only [Pos_pow7_, Region.set_apply, ↓reduceIte, Nat.reduceEqDiff, den_mul_r]; ring)
+    (simp only [Pos_pow7_, Region.set_apply, ↓reduceIte, Nat.reduceEqDiff, den_mul_r, den_pow7] <;> ring)
 
 theorem spow7_frame (x : Region) (i : Nat) (h : 12 ≤ i) : (Pos_pow7_ x) i = x i := by
   obtain ⟨h0, h1, h2, h3, h4, h5, h6, h7, h8, h9, h10, h11⟩ := ne12 i h
@@ -35,7 +36,7 @@ theorem spow7_frame (x : Region) (i : Nat) (h : 12 ≤ i) : (Pos_pow7_ x) i = x 
 
 theorem spow7add_den (x c : Region) : ∀ i, i < 12 → den ((Pos_pow7add_ x c) i) = den (x i) ^ 7 + den (c i) := by
   refine forall_lt_12 _ ?_ ?_ ?_ ?_ ?_ ?_ ?_ ?_ ?_ ?_ ?_ ?_ <;>
-    (simp only [Pos_pow7add_, Region.set_apply, ↓reduceIte, Nat.reduceEqDiff, den_mul_r, den_add_r]; ring)
+    (simp only [Pos_pow7add_, Region.set_apply, ↓reduceIte, Nat.reduceEqDiff, den_mul_r, den_add_r, den_pow7] <;> ring)
 
 theorem spow7add_frame (x c : Region) (i : Nat) (h : 12 ≤ i) : (Pos_pow7add_ x c) i = x i := by
   obtain ⟨h0, h1, h2, h3, h4, h5, h6, h7, h8, h9, h10, h11⟩ := ne12 i h
